@@ -20,7 +20,7 @@ RULE = ('lattice T in {1,10,1023,2^18,1e6,1e8} x M in {0.2..12} x W/M in {0,1e-9
         'distinct = digest(T,M,W | data)')
 ASSUMPTIONS = ['forward values compared at rtol 1e-10 plus an absolute term scaled by T*10^-(M-W)*(1+p^2) (cancellation near s=W)']
 MIN_CHECKS = {'quick': 6000, 'thorough': 150000}
-REQUIRED_COUNTERS = ['chk:forward', 'chk:inverse', 'chk:derive', 'chk:refusal', 'chk:axis']
+REQUIRED_COUNTERS = ['chk:forward', 'chk:inverse', 'chk:derive', 'chk:refusal', 'chk:axis', 'chk:form']
 
 
 def check_triple(ctx, cid, P, T, M, W):
@@ -53,6 +53,62 @@ def check_triple(ctx, cid, P, T, M, W):
     si = np.asarray(inv.transform_non_affine(xs), dtype=float)
     ctx.check(bool(np.all(np.diff(si) >= 0)), 'inverse:decreasing', cid, **d)
     ctx.check(inv.inverted() is t or isinstance(inv.inverted(), P._LogicleTransform), 'inverse:inverted-not-forward', cid, **d)
+    # ---- the same numbers in another numeric form: integer-valued display coordinates as integer arrays / lists /
+    # scalars, single precision, 2-D; integral parameters as Python / NumPy integers.  A refused form is observed
+    # only; an accepted one must give the float64 answer (single precision: to single-precision accuracy).
+    si_ = np.arange(0, int(np.floor(M)) + 1)
+    want = np.asarray(t.transform_non_affine(si_.astype(np.float64)), dtype=float)
+    # (integer-typed display coordinates are observed only: 10**s in a narrow integer type overflows by NumPy's
+    # own rules, and the statement quantifies over parameter triples, not over integer display coordinates)
+    forms = [('int64', si_.astype(np.int64), None), ('int32', si_.astype(np.int32), None),
+             ('list-float', [float(v) for v in si_], 1e-12), ('big-endian', si_.astype('>f8'), 1e-12),
+             ('float32', si_.astype(np.float32), 2e-5), ('2d', si_.astype(np.float64).reshape(-1, 1), 1e-12),
+             ('non-contiguous', np.repeat(si_.astype(np.float64), 2)[::2], 1e-12)]
+    for fname, v, rt in forms:
+        ctx.counters['chk:form'] += 1
+        with np.errstate(all='ignore'):
+            o2 = core.attempt(t.transform_non_affine, v)
+        if o2.raised:
+            ctx.note('form-refused:forward:' + fname)
+            continue
+        got = np.asarray(o2.value, dtype=float).reshape(-1)
+        if rt is None:
+            if not (got.shape == want.shape and bool(np.all(np.abs(got - want) <= 1e-9 * np.abs(want) + 1e-9 * scale))):
+                ctx.note('observed, not judged: integer-typed display coordinates give other values (%s)' % fname)
+            continue
+        ctx.check(got.shape == want.shape and bool(np.all(np.abs(got - want) <= rt * np.abs(want) + rt * scale)),
+                  'form:forward-depends-on-input-form', cid, form=fname, **d)
+    xi_ = np.unique(np.round(np.linspace(x[0], x[-1], 9)))
+    xi_ = xi_[(xi_ >= x[0]) & (xi_ <= x[-1]) & (np.abs(xi_) < 2 ** 31)]
+    if len(xi_):
+        with np.errstate(all='ignore'):
+            wanti = np.asarray(inv.transform_non_affine(xi_.astype(np.float64)), dtype=float)
+            for fname, v in (('int64', xi_.astype(np.int64)), ('int32', xi_.astype(np.int32)), ('list-int', [int(q) for q in xi_]),
+                             ('list-float', [float(q) for q in xi_])):
+                ctx.counters['chk:form'] += 1
+                o2 = core.attempt(inv.transform_non_affine, v)
+                if o2.raised:
+                    ctx.note('form-refused:inverse:' + fname)
+                    continue
+                got = np.asarray(o2.value, dtype=float).reshape(-1)
+                ctx.check(got.shape == wanti.shape and bool(np.all(np.abs(got - wanti) <= 1e-9 * M)),
+                          'form:inverse-depends-on-input-form', cid, form=fname, **d)
+    integral = [float(v) == int(v) for v in (T, M, W)]
+    if all(integral) and M >= 1:
+        for fname, conv in (('py-int', int), ('np-int64', np.int64), ('np-float64', np.float64)):
+            ctx.counters['chk:form'] += 1
+            o2 = core.attempt(P._LogicleTransform, T=conv(T), M=conv(M), W=conv(W))
+            if o2.raised:
+                ctx.note('form-refused:params:' + fname)
+                continue
+            with np.errstate(all='ignore'):
+                o3 = core.attempt(o2.value.transform_non_affine, s)
+            if o3.raised:
+                ctx.note('form-refused:params:' + fname)
+                continue
+            got = np.asarray(o3.value, dtype=float)
+            ctx.check(bool(np.all(np.abs(got - x) <= 1e-10 * np.abs(x) + 1e-10 * scale)), 'form:forward-depends-on-parameter-form',
+                      cid, form=fname, **d)
 
 
 def run(ctx):
